@@ -41,6 +41,18 @@ pub fn handle(op: &str, a: &[&str]) -> Option<Resp> {
                     let wf = Deb822::from_str(&s).is_ok() && !s.contains('\r');
                     (Deb822::from_str_relaxed(&s).0, wf)
                 }
+                // the live result of `Deb822::wrap_and_sort(None, None)` on the parsed text: its root
+                // holds the free-standing comment lines as bare COMMENT / NEWLINE tokens (F-C05-3)
+                ["w", t] => {
+                    let s = ds(t)?;
+                    let wf = Deb822::from_str(&s).is_ok() && !s.contains('\r');
+                    let d0 = Deb822::from_str_relaxed(&s).0;
+                    let w = std::panic::catch_unwind(std::panic::AssertUnwindSafe(|| d0.wrap_and_sort(None, None)));
+                    match w {
+                        Ok(w) => (w, wf),
+                        Err(_) => return Some(Resp::with("PANIC".into(), if wf { Some("wrap_and_sort panicked".into()) } else { None })),
+                    }
+                }
                 ["d", d] => {
                     let d = dec_doc(d)?;
                     let ok = d.iter().all(|p| p.iter().all(|(k, v)| docspec::valid_key(k) && canon_value(v) && !v.is_empty() && !v.starts_with('\n')));
@@ -269,6 +281,10 @@ fn start_states() -> Vec<String> {
         "A: a\r\r\rC: c\r\rB: b",
     ];
     let mut v: Vec<String> = texts.iter().map(|t| format!("t.{}", es(t))).collect();
+    // the same operations on the live result of wrap_and_sort (bare tokens under the root)
+    for t in ["# top\n\nA: a\n\n# mid\n\nB: b\n", "# top\nA: a\n\n# about B\nB: b\n", "# only\n", "A: b\n\nB: c", "A: b\n# in\nC: d\n\n# tail\n"] {
+        v.push(format!("w.{}", es(t)));
+    }
     let docs: Vec<Vec<Vec<(String, String)>>> = vec![
         vec![],
         vec![vec![("A".into(), "b".into())]],
@@ -306,7 +322,15 @@ pub fn generate_edit(tier: &str, seed: u64, out: &mut Out, which: &str) {
     let mut rng = Rng::new(seed);
     let pool: Vec<String> = match which {
         "C04" => op_pool(3).into_iter().filter(|o| !o.starts_with("addp") && !o.starts_with("insp") && !o.starts_with("rmp")).collect(),
-        _ => op_pool(2),
+        _ => {
+            // the handles of paragraphs created by add/insert_paragraph (numbers 2 and 3 on the
+            // start documents with two paragraphs): one field edit each, so that a new paragraph
+            // is filled and the re-read oracle sees it (after seeded change C05-r5m1)
+            let mut p = op_pool(2);
+            p.push(format!("set.2.{}.{}", es("A"), es("x")));
+            p.push(format!("set.3.{}.{}", es("C"), es("y")));
+            p
+        }
     };
     let maxlen = if thorough { 3 } else { 2 };
     let hist = lists_upto(&pool, maxlen);
